@@ -305,6 +305,13 @@ def run_reject_case(a):
         cfg = {}
         if kind == "bad-validation-flag":
             argv += ["-v", "yup"]
+        elif kind == "bad-validation-case-variant-flag":
+            argv += ["-v", "Zod"]                     # only the exact spellings zod / none are supported
+        elif kind == "bad-validation-case-variant-file":
+            cfg = {"validation_library": "NONE"}
+        elif kind == "bad-validation-case-variant-no-commands":
+            argv += ["-v", "ZOD"]
+            open(os.path.join(app, "src-tauri", "src", "lib.rs") if os.path.isdir(os.path.join(app, "src-tauri", "src")) else os.path.join(app, "src-tauri", "lib.rs"), "w").write("pub fn helper() {}\n")
         elif kind == "bad-validation-file":
             cfg = {"validation_library": "joi"}
         elif kind == "missing-project-flag":
@@ -338,6 +345,8 @@ def run_reject_case(a):
                 argv += ["-o", "typegen.custom.json"]
             if kind == "init-bad-validation":
                 argv += ["-v", "yup"]
+            elif kind == "init-bad-validation-case-variant":
+                argv += ["-v", "ZOD"]
             elif kind == "init-missing-project":
                 argv += ["-p", "./does-not-exist"]
             elif kind == "init-refused-existing-file":
@@ -457,7 +466,8 @@ def run(tier):
     rjobs = [(cli, kind, source) for kind in ("file-project-missing-but-flag-valid", "file-validation-bad-but-flag-valid") for source in ("tauri.conf.json", "-c")]
     rjobs += [(cli, kind, source) for kind in ("bad-validation-flag", "bad-validation-file", "missing-project-flag", "missing-project-file", "missing-project-default", "missing-config-file")
              for source in ("tauri.conf.json", "-c")]
-    rjobs += [(cli, kind, source) for kind in ("init-bad-validation", "init-missing-project", "init-refused-existing-file") for source in ("tauri.conf.json", "-c")]
+    rjobs += [(cli, kind, source) for kind in ("init-bad-validation", "init-bad-validation-case-variant", "init-missing-project", "init-refused-existing-file") for source in ("tauri.conf.json", "-c")]
+    rjobs += [(cli, kind, source) for kind in ("bad-validation-case-variant-flag", "bad-validation-case-variant-file", "bad-validation-case-variant-no-commands") for source in ("tauri.conf.json", "-c")]
     for (job, r) in zip(rjobs, common.pmap(run_reject_case, rjobs)):
         v.case(("reject", job[1], job[2]), nontrivial=True, sample={"kind": "rejection", "case": r["label"]} if len(v.samples) < 8 else None)
         v.count("rejection_cases")
